@@ -44,7 +44,10 @@ func (c *Client) keepaliveLoop(ctx context.Context) error {
 	for {
 		select {
 		case <-ticker.C:
-			if err := c.Ping(); err != nil {
+			if err := c.ping(); err != nil {
+				if err == errPingInterrupted {
+					return nil
+				}
 				return err
 			}
 
